@@ -46,7 +46,7 @@ def strategy(tier):
 
 
 def budget(tier):
-    return 700 if tier == "quick" else 6000
+    return 700 if tier == "quick" else 50000
 
 
 def classify(case):
